@@ -174,6 +174,22 @@ func runC18(c *an.Ctx) {
 		})
 		c.MinCount("R3", "downstream writes in rwInterceptor.Write", nW, 2)
 	}
+	// every request body the client sent is handed to the transaction: the connector reads it whenever there is one
+	// (req.Body present) and body access is on, whatever the framing (Content-Length, chunked, HTTP/2)
+	if pr := c.FnOpt("http.processRequest"); pr != nil {
+		nRd := 0
+		an.Instrs(pr, func(in ssa.Instruction) {
+			cc := an.CallOf(in)
+			if cc == nil || !cc.IsInvoke() || cc.Method.Name() != "ReadRequestBodyFrom" {
+				return
+			}
+			nRd++
+			fg := foreignGuards(an.FactsAt(in), "req.Body", "NoBody", "IsRequestBodyAccessible", "ProcessRequestHeaders", "ProcessConnection", "ProcessURI", "rangeindex", "range(req.Header)", "req.TransferEncoding", "req.Header")
+			c.Check(len(fg) == 0, "R5", "processRequest reads the request body whenever one is present", in.Pos(), "guards: body present, body access on, no earlier interruption",
+				"the connector hands the request body to the transaction only when additionally "+strings.Join(fg, ", ")+": bodies that do not satisfy it (for instance chunked or HTTP/2 bodies, whose ContentLength is -1) are never inspected — no ARGS_POST, no REQUEST_BODY, no limit — and are forwarded to the handler untouched")
+		})
+		c.MinCount("R5", "request body reads in the connector", nRd, 1)
+	}
 	// a response interrupted in a response phase declares an empty body before its status is flushed: the first
 	// Write of a handler that never called WriteHeader runs phase 3 from inside Write, after the interruption test
 	// at the top of Write, and goes on to hand its bytes to the delegate — only the declared Content-Length: 0 makes
